@@ -309,6 +309,51 @@ fn native_spec() {
                 println!("SPEC-REPLAY MISMATCH target=react_actions case={n} x -c: count {:?}, expected {}", got.map_err(|e| e.kind()), n.min(255));
             }
         }
+    } else if target == "react_delimiter" {
+        // C02: values are split only at the declared delimiter and no piece is dropped
+        for (argv, want) in [
+            (vec!["p", "-o", "a,,b"], vec!["a", "", "b"]),
+            (vec!["p", "-o", ",a"], vec!["", "a"]),
+            (vec!["p", "-o", "a,"], vec!["a", ""]),
+            (vec!["p", "-o", "a;b"], vec!["a;b"]),
+            (vec!["p", "-o", "a,b", "-o", "c"], vec!["a", "b", "c"]),
+        ] {
+            let cmd = Command::new("p").arg(Arg::new("o").short('o').action(ArgAction::Append).value_delimiter(','));
+            match cmd.try_get_matches_from(argv.clone()) {
+                Ok(m) => {
+                    let got: Vec<String> = m.get_many::<String>("o").map(|v| v.cloned().collect()).unwrap_or_default();
+                    if got != want {
+                        println!("SPEC-REPLAY MISMATCH target=react_delimiter case={argv:?} with value_delimiter(','): values {got:?}, expected {want:?}");
+                    }
+                }
+                Err(e) => println!("SPEC-REPLAY MISMATCH target=react_delimiter case={argv:?}: rejected as {:?}", e.kind()),
+            }
+        }
+    } else if target == "remove_overrides" {
+        // C07: an argument that overrides another removes the other's earlier occurrences, in either
+        // order of appearance, and ALL overriders are removed when the overridden one appears later
+        let mk = || {
+            Command::new("p")
+                .arg(Arg::new("verbose").long("verbose").action(ArgAction::Count))
+                .arg(Arg::new("quiet").long("quiet").action(ArgAction::SetTrue).overrides_with("verbose"))
+                .arg(Arg::new("silent").long("silent").action(ArgAction::Set).overrides_with("verbose"))
+        };
+        for (argv, want) in [
+            (vec!["p", "--quiet", "--silent=x", "--verbose"], (1u8, false, None)),
+            (vec!["p", "--verbose", "--verbose", "--quiet"], (0u8, true, None)),
+            (vec!["p", "--quiet", "--verbose"], (1u8, false, None)),
+            (vec!["p", "--verbose", "--silent=x"], (0u8, false, Some("x"))),
+        ] {
+            match mk().try_get_matches_from(argv.clone()) {
+                Ok(m) => {
+                    let got = (m.get_count("verbose"), m.get_flag("quiet"), m.get_one::<String>("silent").map(|s| s.as_str()));
+                    if got != want {
+                        println!("SPEC-REPLAY MISMATCH target=remove_overrides case={argv:?}: (verbose, quiet, silent) = {got:?}, expected {want:?}");
+                    }
+                }
+                Err(e) => println!("SPEC-REPLAY MISMATCH target=remove_overrides case={argv:?}: rejected as {:?}", e.kind()),
+            }
+        }
     } else if target == "match_arg_error" {
         // C10: the error kind names a rule the input really breaks
         for acws in [false, true] {
